@@ -297,6 +297,17 @@ pub fn tagged_expect_head(c: usize, k: usize, n: usize) -> Vec<u8> {
     format!("PUT /c{}/r{} HTTP/1.1\r\nExpect: 100-continue\r\nContent-Length: {}\r\n\r\n", c, k, n).into_bytes()
 }
 
+/// Body of the application's answer to request k of client c: tag, then bytes that depend on
+/// their position (a repeated or misplaced stretch of a response is visible in the body).
+pub fn response_body(c: usize, k: usize, size: usize) -> Vec<u8> {
+    let mut body = format!("c{}r{}:", c, k).into_bytes();
+    while body.len() < size {
+        let i = body.len();
+        body.push(b'a' + ((i / 7 + i % 13 + c + 3 * k) % 26) as u8);
+    }
+    body
+}
+
 fn parse_tag(path: &str) -> Option<(usize, usize)> {
     let rest = path.strip_prefix("/c")?;
     let (c, r) = rest.split_once("/r")?;
@@ -376,8 +387,13 @@ pub struct World<'a> {
     listener_fd: RawFd,
     epfd: RawFd,
     kill: Option<EventFd>,
+    /// closure variant in which the application answers nothing further
+    probe_without_answers: bool,
     killed: bool,
     kill_installed: bool,
+    /// the kill switch was signalled before it was handed to the server (the eventfd waits here)
+    signalled_early: bool,
+    pending_kill_ev: Option<EventFd>,
     polls_after_kill: usize,
     devnull: RawFd,
     foreign: BTreeSet<RawFd>,
@@ -523,7 +539,10 @@ impl<'a> World<'a> {
             kill,
             killed: false,
             polls_after_kill: 0,
+            probe_without_answers: false,
             kill_installed: false,
+            signalled_early: false,
+            pending_kill_ev: None,
             last_answered: None,
             with_kill: with_kill_switch,
             devnull,
@@ -617,6 +636,9 @@ impl<'a> World<'a> {
         if let Some(k) = &self.kill {
             all.remove(&k.as_raw_fd());
         }
+        if let Some(k) = &self.pending_kill_ev {
+            all.remove(&k.as_raw_fd());
+        }
         for c in &self.clients {
             all.remove(&c.fd);
         }
@@ -641,6 +663,17 @@ impl<'a> World<'a> {
             SAct::ShutWr(c) => self.shutdown(c as usize, libc::SHUT_WR),
             SAct::Poll(o) => self.poll(o as u32),
             SAct::Respond(i, s) => self.respond(i as usize, self.cfg.resp_sizes[s as usize % self.cfg.resp_sizes.len()]),
+            SAct::Kill if self.cfg.kill_install_action && !self.kill_installed => {
+                // signalled before the application hands the switch to the server
+                if self.with_kill {
+                    let ev = EventFd::new(libc::EFD_NONBLOCK).expect("eventfd");
+                    ev.write(1).expect("eventfd write");
+                    self.pending_kill_ev = Some(ev);
+                }
+                self.signalled_early = true;
+                self.note("Kill", json!({"before_installation": true}));
+                self.log.push("kill".into());
+            }
             SAct::Kill => {
                 if let Some(k) = &self.kill {
                     k.write(1).expect("eventfd write");
@@ -654,7 +687,10 @@ impl<'a> World<'a> {
             }
             SAct::InstallKill => {
                 if self.with_kill && self.kill.is_none() {
-                    let ev = EventFd::new(libc::EFD_NONBLOCK).expect("eventfd");
+                    let ev = match self.pending_kill_ev.take() {
+                        Some(ev) => ev,
+                        None => EventFd::new(libc::EFD_NONBLOCK).expect("eventfd"),
+                    };
                     let mine = ev.try_clone().expect("eventfd clone");
                     let num = ev.as_raw_fd();
                     let r = util::catch(|| self.server.as_mut().unwrap().add_kill_switch(ev));
@@ -669,6 +705,9 @@ impl<'a> World<'a> {
                     self.note("InstallKill", json!({"skipped": "twin without kill switch"}));
                 }
                 self.kill_installed = true;
+                if self.signalled_early {
+                    self.killed = true;
+                }
                 self.log.push("install-kill".into());
             }
             SAct::LateDuplicate => {
@@ -710,11 +749,7 @@ impl<'a> World<'a> {
                     }
                     batch.push(o.sreq.process(|req| {
                         let mut r = Response::new(req.http_version(), StatusCode::OK);
-                        let mut body = format!("c{}r{}:", c, k).into_bytes();
-                        while body.len() < size {
-                            body.push(b'x');
-                        }
-                        r.set_body(Body::new(body));
+                        r.set_body(Body::new(response_body(c, k, size)));
                         r
                     }));
                     self.clients[c].supplied.push((k, size));
@@ -1225,10 +1260,7 @@ impl<'a> World<'a> {
         let (c, k) = (o.client, o.seq);
         let resp = o.sreq.process(|req| {
             let mut r = Response::new(req.http_version(), StatusCode::OK);
-            let mut body = format!("c{}r{}:", c, k).into_bytes();
-            while body.len() < size {
-                body.push(b'x');
-            }
+            let body = response_body(c, k, size);
             r.set_body(Body::new(body));
             r
         });
@@ -1282,7 +1314,12 @@ impl<'a> World<'a> {
                     let tag = body.split(':').next().unwrap_or("").to_string();
                     let supplied = self.clients[c].supplied.clone();
                     match supplied.get(n200) {
-                        Some((k, size)) if tag == format!("c{}r{}", c, k) && r.body.len() == (*size).max(tag.len() + 1) => {}
+                        Some((k, size)) if tag == format!("c{}r{}", c, k) && r.body == response_body(c, *k, *size) => {}
+                        Some((k, size)) if tag == format!("c{}r{}", c, k) && r.body.len() == (*size).max(tag.len() + 1) => {
+                            let want = response_body(c, *k, *size);
+                            let at = r.body.iter().zip(want.iter()).position(|(a, b)| a != b).unwrap_or(0);
+                            return self.fail("response-body-corrupted", format!("client {} received response #{} (c{}r{}, {} bytes) whose body differs from what the application supplied from offset {}: got {:?}, supplied {:?}", c, n200, c, k, size, at, show(&r.body[at..r.body.len().min(at + 40)]), show(&want[at..want.len().min(at + 40)])));
+                        }
                         other => {
                             let owner = tag.strip_prefix('c').and_then(|t| t.split('r').next()).and_then(|x| x.parse::<usize>().ok());
                             let sig = if owner.is_some() && owner != Some(c) { "response-misrouted" } else { "response-order" };
@@ -1380,7 +1417,7 @@ impl<'a> World<'a> {
         let pa: Vec<u8> = self.pending_accept.iter().map(|x| *x as u8).collect();
         let ready = format!("{:?}", self.ready_set());
         let masks = self.interest_masks();
-        let misc = [self.killed as u8, self.polls_after_kill.min(3) as u8, self.kill_installed as u8, if self.cfg.late_duplicates { self.last_answered.as_ref().map_or(255, |o| o.client as u8) } else { 0 }];
+        let misc = [self.killed as u8, self.polls_after_kill.min(3) as u8, self.kill_installed as u8 | (self.signalled_early as u8) << 1, if self.cfg.late_duplicates { self.last_answered.as_ref().map_or(255, |o| o.client as u8) } else { 0 }];
         let rel: Vec<u8> = self.released_fds.iter().flat_map(|f| f.to_le_bytes()).collect();
         util::hash128(&[&t, &cl, &o, &pa, ready.as_bytes(), masks.as_bytes(), &misc, &(self.limit as u64).to_le_bytes(), &rel])
     }
@@ -1471,7 +1508,7 @@ impl<'a> World<'a> {
         if self.outstanding.len() >= 2 && self.cfg.respond_any {
             v.push(SAct::RespondAll(0));
         }
-        if self.cfg.kill_action && (self.kill.is_some() || (self.cfg.kill_install_action && self.kill_installed)) {
+        if self.cfg.kill_action && (self.kill.is_some() || self.cfg.kill_install_action) && !self.signalled_early {
             v.push(SAct::Kill);
         }
         if self.cfg.kill_install_action && !self.kill_installed {
@@ -1529,7 +1566,7 @@ impl<'a> World<'a> {
         let mut polls = 0usize;
         loop {
             let mut progress = false;
-            while !self.outstanding.is_empty() {
+            while !self.outstanding.is_empty() && !self.probe_without_answers {
                 self.respond(0, 5);
                 progress = true;
                 if self.violation.is_some() {
@@ -1546,7 +1583,7 @@ impl<'a> World<'a> {
                 if self.violation.is_some() {
                     return Some(polls);
                 }
-                if !self.outstanding.is_empty() {
+                if !self.outstanding.is_empty() && !self.probe_without_answers {
                     progress = true;
                     break;
                 }
@@ -1573,6 +1610,37 @@ impl<'a> World<'a> {
         let pending_bytes: usize = self.clients.iter().map(|c| c.supplied.iter().map(|(_, s)| *s + 200).sum::<usize>()).sum::<usize>() + self.outstanding.len() * 300;
         let unread_in: usize = self.clients.iter().map(|c| c.sent.len()).sum();
         80 + 4 * self.clients.len() + pending_bytes / 1024 + unread_in / 256
+    }
+
+    /// C08: unsent output is work outstanding whether or not other requests of the connection
+    /// are still unanswered: polling while the descriptor signals and clients draining must
+    /// deliver every response supplied so far even if the application answers nothing else.
+    pub fn closure_without_answers(&mut self) {
+        if self.total_supplied == 0 || self.outstanding.is_empty() {
+            return; // closure_all covers it
+        }
+        self.probe_without_answers = true;
+        let budget = self.budget();
+        let r = self.run_to_quiescence(&[Role::WellBehaved, Role::Filler], budget);
+        self.probe_without_answers = false;
+        if r.is_none() || self.violation.is_some() {
+            return; // spinning is judged by closure_all
+        }
+        for i in 0..self.clients.len() {
+            if self.cfg.clients[i].role != Role::WellBehaved || !self.clients[i].connected {
+                continue;
+            }
+            let c = &self.clients[i];
+            if c.closed || c.shut_rd || c.eof || c.reset {
+                continue;
+            }
+            let (rs, _, _) = read_all(&c.rx);
+            let n200 = rs.iter().filter(|r| r.code == 200).count();
+            if n200 != c.supplied.len() {
+                let d = format!("the application supplied {} responses for client {} and still owes answers to other requests; after polling while the epoll descriptor signalled and the client draining, the client holds {} of them; the epoll descriptor is {} (interest {}; server table {:?})", c.supplied.len(), i, n200, if self.epoll_readable() { "readable" } else { "not readable: a caller waiting on it blocks with unsent output" }, self.interest_masks(), self.server_table().iter().map(|e| (e.0, e.1, e.2)).collect::<Vec<_>>());
+                return self.fail("stall:supplied-not-delivered", d);
+            }
+        }
     }
 
     /// C08 closure.
@@ -1960,6 +2028,16 @@ impl SrvCfg {
             w.closure_all();
             if let Some(v) = w.violation.take() {
                 let mut st = vec![json!({"probe": "closure_all"})];
+                st.extend(w.steps.drain(n0..));
+                return (Some(v), st);
+            }
+        }
+        if self.closure_all {
+            let mut w = self.execute(path, tracing, self.kill_switch);
+            let n0 = w.steps.len();
+            w.closure_without_answers();
+            if let Some(v) = w.violation.take() {
+                let mut st = vec![json!({"probe": "closure_without_answers"})];
                 st.extend(w.steps.drain(n0..));
                 return (Some(v), st);
             }
